@@ -5,6 +5,8 @@ package main
 // events emitted for it so far.
 
 import (
+	datastore "github.com/ipfs/go-datastore"
+	"berty.tech/go-orbit-db/stores/basestore"
 	"context"
 	"fmt"
 	"sort"
@@ -155,6 +157,35 @@ func (w *World) execMultiDBOp(ctx context.Context, toks []string) (bool, error) 
 		w.switchDB(cur)
 	case "pause":
 		time.Sleep(time.Duration(atoi(toks[1])) * time.Millisecond)
+	case "snapcross":
+		// snapcross p from to : the snapshot of database `from` (saved now) is what p's store of database
+		// `to` finds under its own cache key (a cache shared between databases, a directory restored
+		// under the wrong address): loading it must not bring another database's entries into `to`
+		p, from, to := atoi(toks[1]), atoi(toks[2]), atoi(toks[3])
+		w.saveCurrentDB()
+		var sf, st iface.Store
+		if from < len(w.dbs) && to < len(w.dbs) {
+			sf, st = w.dbs[from].stores[p], w.dbs[to].stores[p]
+		}
+		if sf == nil || st == nil || from == to {
+			w.printf("snapcrossed %d skip\n", p)
+			return true, nil
+		}
+		res := guarded(func() error {
+			if _, err := basestore.SaveSnapshot(ctx, sf); err != nil {
+				return err
+			}
+			for _, k := range []string{"snapshot", "queue"} {
+				if v, err := sf.Cache().Get(ctx, datastore.NewKey(k)); err == nil {
+					if err := st.Cache().Put(ctx, datastore.NewKey(k), v); err != nil {
+						return err
+					}
+				}
+			}
+			return st.LoadFromSnapshot(ctx)
+		})
+		ok := w.quiesce(st)
+		w.printf("snapcrossed %d %s quiesce=%v\n", p, res, ok)
 	case "exchangeall":
 		w.exchangeAll(ctx, atoi(toks[1]), atoi(toks[2]))
 	default:
